@@ -1339,7 +1339,7 @@ class WindowGen(Gen):
 # non-equality correlated [NOT] EXISTS over duplicate outer rows, CTEs referenced from a subquery
 # and from the main query, chained set operations with mixed quantifiers, wide integer group keys.
 class Shapes2(OptShapes):
-    SHAPES = ["pjk_skew", "having_topn", "topn_offset", "corr_exists_noneq", "corr_exists_or", "cte_multi", "cte_semi", "setop_chain", "agg_wide", "union_join_str", "samecols_semi"]
+    SHAPES = ["pjk_skew", "having_topn", "topn_offset", "corr_exists_noneq", "corr_exists_or", "cte_multi", "cte_semi", "setop_chain", "agg_wide", "union_join_str", "samecols_semi", "limit_zero"]
 
     def case(self, cid):
         r = self.rng
@@ -1586,6 +1586,34 @@ class Shapes2(OptShapes):
         fm = {"k": "join", "kind": "inner", "l": {"k": "table", "name": "t0"}, "r": {"k": "table", "name": "t1"}, "on": on.m, "ln": 3, "rn": 3}
         proj = [both.ref(0, i) for i in sorted(r.sample(range(6), r.randint(2, 4)))]
         return self.sel(fsql, fm, proj, where=w), [t0, t1, t2]
+
+    # --- C45: a table that is only read under a LIMIT 0 (set-operation branch or sub-query): it still has to be there to bind -
+    def s2_limit_zero(self):
+        r = self.rng
+        t0 = self.tab("t0", [("a0", "int"), ("b0", "int")], [[r.randint(0, 3), r.randint(0, 3)] for _ in range(r.randint(1, 5))], ("a0", "b0"))
+        t1 = self.tab("t1", [("a1", "int"), ("b1", "int")], [[r.randint(0, 3), r.randint(0, 3)] for _ in range(r.randint(1, 4))], ("a1", "b1"))
+        x0, x1 = self.fresh("x"), self.fresh("x")
+        s0, s1 = Scope(self.cols(t0, x0)), Scope(self.cols(t1, x1))
+        lim = r.choice([0, 0, 0, 1])
+        form = r.choice(["union_r", "union_l", "exists", "in"])
+        if form in ("union_r", "union_l"):
+            q0 = self.sel(f"t0 AS {x0}", {"k": "table", "name": "t0"}, [s0.ref(0, 0), s0.ref(0, 1)])
+            q1 = self.sel(f"t1 AS {x1}", {"k": "table", "name": "t1"}, [s1.ref(0, 0), s1.ref(0, 1)], order=[(0, 0), (1, 0)], limit=lim)
+            al = r.randint(0, 1)
+            kw = "UNION ALL" if al else "UNION"
+            l, rr = (q0, q1) if form == "union_r" else (q1, q0)
+            lsql = f"({l.sql})" if l is q1 else l.sql
+            rsql = f"({rr.sql})" if rr is q1 else rr.sql
+            m = {"k": "setop", "op": "union", "all": al, "l": l.m, "r": rr.m, "order": [], "limit": -1, "offset": 0}
+            return Q(f"{lsql} {kw} {rsql}", m, list(l.cols)), [t0, t1]
+        s1o = Scope(self.cols(t1, x1), s0)
+        sub = self.sel(f"t1 AS {x1}", {"k": "table", "name": "t1"}, [s1o.ref(0, 0)], order=[(0, 0)], limit=lim)
+        neg = r.randint(0, 1)
+        if form == "exists":
+            w = E(f"({'NOT ' if neg else ''}EXISTS ({sub.sql}))", {"k": "exists", "q": sub.m, "neg": neg}, "bool")
+        else:
+            w = E(f"({s0.ref(0, 0).sql} {'NOT ' if neg else ''}IN ({sub.sql}))", {"k": "insub", "a": s0.ref(0, 0).m, "q": sub.m, "neg": neg}, "bool")
+        return self.sel(f"t0 AS {x0}", {"k": "table", "name": "t0"}, [s0.ref(0, 0), s0.ref(0, 1)], where=w), [t0, t1]
 
     # --- C30: UNION ALL of a plain scan and a hash join that gathers VARCHAR / other columns from a small build side ----------
     # (a join gather may hand back dictionary-encoded columns: every batch of the result must still carry the reported types,
